@@ -129,6 +129,10 @@ func NewDynamicCallableFunction(
 	handler any,
 	typeHandler func(inputType []Type) (Type, error),
 ) (CallableFunction, error) {
+	if typeHandler == nil {
+		// Call tells a dynamic function from an output-less one by the type handler.
+		return nil, fmt.Errorf("a dynamic function needs a type handler, nil given")
+	}
 	parsedHandler := reflect.ValueOf(handler)
 	// Validate the input types match the provided ones.
 	err := validateInputTypeCompatibility(inputs, parsedHandler)
